@@ -572,7 +572,7 @@ def _interp(f, spec, req, live=None):
 # ---------------------------------------------------------------------------------------
 # comparison and histories (driver side)
 # ---------------------------------------------------------------------------------------
-def compare(req, hist_res, fresh_res):
+def compare(req, hist_res, fresh_res, id_recycling_possible=False):
     hs, hr = hist_res
     fs, fr = fresh_res
     short = dumps(req)[:400]
@@ -600,7 +600,9 @@ def compare(req, hist_res, fresh_res):
         if np.any(bad):
             i = np.unravel_index(np.argmax(bad), a.shape)
             key = f"{req['kind']}:{req.get('eq', req.get('op', ''))}"
-            if req["kind"] == "op_info" and not req.get("keep", True):
+            if req["kind"] == "op_info" and (not req.get("keep", True) or id_recycling_possible):
+                # a throw-away factory was garbage collected earlier in this history: its id (the
+                # cache key) may have been recycled for the factory of this request
                 key = KEY_FACTORY_ID
             raise Violation(
                 f"result depends on history: request {short} returned {a[i]!r} at {tuple(map(int, i))} after the "
@@ -631,7 +633,10 @@ class RequestHistory(History):
     def op_request(self, **req):
         h = self.z.call("hstep", req)
         f = self.z.call("fresh", req)
-        self.outcomes.append(compare(req, h, f))
+        recycled = getattr(self, "throwaway_factory_seen", False)
+        if req["kind"] == "op_info" and not req.get("keep", True):
+            self.throwaway_factory_seen = True
+        self.outcomes.append(compare(req, h, f, id_recycling_possible=recycled))
         self.reqs.append(req)
 
     def record(self):
